@@ -204,6 +204,39 @@ def run(ctx):
     if n_ser < 5:
         raise CannotDecide('derived struct serializers of wire types: %d (floor 5)' % n_ser)
 
+    # ------------------------------------------------------------------ connections are framed with the configuration in force when they are made
+    # (both ends must frame alike: a listener or connector that frames with a snapshot of its Builder taken earlier ignores what `config_mut()` set)
+    from .common import deep_bodies
+    n_cfg = 0
+    for pth, a_ in F.adts.items():
+        if not pth.startswith('serde_transport') or a_['kind'] != 'Struct' or '::_::' in pth:
+            continue     # ('::_::' = structs generated by pin-project)
+        flds = a_['variants'][0]['fields']
+        bf = [x[0] for x in flds if x[1].endswith('length_delimited::Builder')]
+        if len(bf) != 1:
+            continue
+        n_cfg += 1
+        snap = [x[0] for x in flds if 'LengthDelimitedCodec' in x[1]]
+        R.ob('C15.framing', (pth.split('serde_transport::')[-1], 'no cached framing codec'), not snap,
+             'the connector / listener keeps only the framing configuration (Builder); the codec of each connection is built from it when the connection is made', [], 'snapshot fields: %s' % snap)
+        meths = [f for f in F.fns.values() if f.impl_of and f.impl_of.get('self_head') == pth and not F.is_derived(f)]
+        sites = []
+        for m in meths:
+            for g in deep_bodies(F, m):
+                for bb, t in g.calls():
+                    if callee_is(t, 'Builder::new_framed', 'Builder::new_codec', 'Builder::new_read', 'Builder::new_write'):
+                        rs = P.root(P.operand(g, t['args'][0], at=bb), through_params=True, callers={x.id for x in deep_bodies(F, m)})
+                        ok_ = bool(rs) and all(r[0] == 'param' and bf[0] in P.fpath(p_) for r, p_ in rs)
+                        sites.append((g.loc(t), ok_))
+                    elif callee_is(t, 'codec::Framed::new', 'tokio_util::codec::Framed::new', 'FramedRead::new', 'FramedWrite::new') and len(t['args']) > 1:
+                        rs = P.root(P.operand(g, t['args'][1], at=bb), through_params=True, callers={x.id for x in deep_bodies(F, m)})
+                        ok_ = bool(rs) and all(P.is_call(r, 'Builder::new_codec') and all(r2[0] == 'param' and bf[0] in P.fpath(p2) for r2, p2 in P.root(P.args_of(r)[0], through_params=True)) for r, p_ in rs)
+                        sites.append((g.loc(t), ok_))
+        R.ob('C15.framing', (pth.split('serde_transport::')[-1], 'framed with the current configuration'), bool(sites) and all(o for _, o in sites),
+             'every connection is framed by the Builder stored in the `%s` field, read when the connection is made' % bf[0], [l for l, _ in sites] or [], '%d construction sites' % len(sites))
+    if n_cfg < 2:
+        raise CannotDecide('serde transport connectors / listeners with a framing configuration: %d (floor 2)' % n_cfg)
+
     # ------------------------------------------------------------------ forwarders
     transports = [('transport::channel::UnboundedChannel', ('UnboundedSender::send',), ('UnboundedReceiver::poll_recv',)),
                   ('transport::channel::Channel', ('Sink::start_send', 'mpsc::Sender::start_send'), ('Stream::poll_next',)),
